@@ -38,6 +38,15 @@ package scheduler
 //@   at[count] call scheduler.PartitionContext.decReservationCount#1: assert arg1 == num && 0 <= num && num <= 1 && (num == 1 ==> old(ask.allocationKey in app.reservations) && !(ask.allocationKey in app.reservations))
 //@   at[queue] call objects.Queue.UnReserve#1: assert arg0 == app.queue && arg1 == app.ApplicationID && arg2 == num
 
+// node removal: every reservation the node reports is given up (one unReserve per element, none skipped), with the
+// application and ask of that reservation and this node
+//@ func (pc *PartitionContext) removeNode(nodeID string) (released []*objects.Allocation, confirmed []*objects.Allocation)
+//@   props C09
+//@   sweep
+//@   mode nopanic=off
+//@   loop 1: invariant ncalls(scheduler.PartitionContext.unReserve) == rangeindex + 1
+//@   at[each] call scheduler.PartitionContext.unReserve#1: assert arg0 == pc && arg2 == node && node != nil && (r != nil ==> arg1 == r.app && arg3 == r.alloc)
+
 // ================================================================ C03: node removal keeps queue and partition counters in step
 
 //@ spec abstract phcounted(a *objects.Allocation) bool
